@@ -13,6 +13,7 @@ package builder
 //@ assigns nothing
 
 //@ func (data/builder.hashBits).slice
+//@ prop C15
 //@ requires 1 <= width && width <= 62
 //@ requires 0 <= offset && offset <= len(hb)*8 && offset + width <= len(hb)*8
 //@ ensures msb-first: isBits(result, hb, offset, width)
@@ -21,7 +22,7 @@ package builder
 //@ decreases width
 
 //@ func (data/builder.hashBits).Slice
-//@ prop C18
+//@ prop C15 C18
 //@ domain in-range: 1 <= width && width <= 62 && 0 <= offset && offset <= (1 << 40)
 //@ ensures err == nil ==> isBits(result, hb, offset, width)
 //@ ensures err == nil <==> offset + width <= len(hb)*8
